@@ -1154,6 +1154,11 @@ class Engine:
             if old is not None:
                 return old == truth
             st.vn[key] = truth
+            site = st.vn.get(('contains-site', a[1])) if truth and isinstance(a[1], tuple) and a[1] and a[1][0] == 'contains' else None
+            if site is not None:
+                # learned on this path: the value is a member of that Screen set (`if !dirty.contains(&y)
+                # { dirty.insert(y) }` leaves y marked on both branches)
+                st.log(('set.member', site[0], site[1]))
             # consequences registered by summaries
             for cons in st.vn.get(('cons', a[1], truth), ()):
                 if not cons(st):
